@@ -544,6 +544,17 @@ func evalC16(h *History) *Outcome {
 			}
 		}
 	}
+	// A decorator loop somewhere in the history (a function that can be built
+	// while a decorator of one of its keys is on the stack): what that function
+	// receives depends on the order of resolution by design (DESIGN §9 R2, F24),
+	// and so may what it returns (how many members a decorated group has), and
+	// with it the wiring of everything downstream. Verdicts are still compared
+	// between orders; wiring is not.
+	level := "wiring-on-success"
+	if len(c.OrderDep) > 0 {
+		level = "verdicts"
+		c.probe("twin_wiring_skipped_decorator_loop")
+	}
 	// tau1: second linearisation
 	th, perm, moved := permuteBlocks(hc, c.R.Res, r)
 	if th != nil && moved {
@@ -557,10 +568,10 @@ func evalC16(h *History) *Outcome {
 		// the permutation keeps Invokes in place, so the prefix is the same in both runs
 		primP, wiringOK := prim[:limit], limit == len(hc.Ops)
 		coarse(primP, tobs, func(i int) int { return inv[i] })
-		if d := compareObs(primP, tobs, func(i int) int { return inv[i] }, "wiring-on-success"); d != nil {
+		if d := compareObs(primP, tobs, func(i int) int { return inv[i] }, level); d != nil {
 			o.Viol = append(o.Viol, Violation{Props: []string{"C16"}, Class: "order-dependent-outcome", Op: d.Op,
 				Detail: fmt.Sprintf("a second order of the accepted registrations changes op %d (%s): %s; twin order %v", d.Op, hc.Ops[d.Op].Kind, d.Detail, perm)})
-		} else if w := compareWiring(c.R, tr, c.OrderDep); w != "" && wiringOK {
+		} else if w := compareWiring(c.R, tr, c.OrderDep); w != "" && wiringOK && level != "verdicts" {
 			o.Viol = append(o.Viol, Violation{Props: []string{"C16"}, Class: "order-dependent-wiring", Op: -1,
 				Detail: fmt.Sprintf("a second order of the accepted registrations changes the wiring: %s; twin order %v", w, perm)})
 		}
@@ -589,10 +600,10 @@ func evalC16(h *History) *Outcome {
 		}
 		tobs := Observe(tr)
 		coarse(prim[:limit], tobs, mapOp)
-		if d := compareObs(prim[:limit], tobs, mapOp, "wiring-on-success"); d != nil {
+		if d := compareObs(prim[:limit], tobs, mapOp, level); d != nil {
 			o.Viol = append(o.Viol, Violation{Props: []string{"C16", "C08"}, Class: "scope-creation-time-matters", Op: d.Op,
 				Detail: fmt.Sprintf("creating the scopes %s changes op %d (%s): %s", map[bool]string{true: "before everything else", false: "as late as possible"}[early], d.Op, hc.Ops[d.Op].Kind, d.Detail)})
-		} else if w := compareWiring(c.R, tr, c.OrderDep); w != "" && limit == len(hc.Ops) {
+		} else if w := compareWiring(c.R, tr, c.OrderDep); w != "" && limit == len(hc.Ops) && level != "verdicts" {
 			o.Viol = append(o.Viol, Violation{Props: []string{"C16", "C08"}, Class: "scope-creation-time-matters", Op: -1,
 				Detail: fmt.Sprintf("creating the scopes %s changes the wiring: %s", map[bool]string{true: "before everything else", false: "as late as possible"}[early], w)})
 		}
